@@ -137,6 +137,8 @@ type Check struct {
 	Shards func(tier string) int
 	// WatchdogPerShard is the wall-clock limit of one child (inconclusive when hit).
 	Watchdog func(tier string) time.Duration
+	// RacePkgs: a race report with a frame in one of these repository packages counts against this property.
+	RacePkgs []string
 }
 
 // Phase is an extra child process run.
@@ -397,6 +399,23 @@ func CheckMain(args []string) int {
 	}
 	wg.Wait()
 
+	// race detector reports of the -race children
+	raceTotal, raceMine, raceOther, raceHarness := scanRaceLogs(work, c.RacePkgs)
+	for sig, blk := range raceMine {
+		total.Violate(Violation{Prop: c.ID, Sig: "data-race:" + sig, Msg: "race detector report in " + sig, Case: -1, Detail: map[string]interface{}{"report": blk}})
+	}
+	for sig := range raceHarness {
+		broken = append(broken, "race report with harness frames only (harness bug): "+sig)
+	}
+	if raceTotal > 0 || len(c.RacePkgs) > 0 {
+		total.Counters["race_reports_total"] += raceTotal
+		total.Counters["race_reports_distinct_in_anchor_packages"] += len(raceMine)
+		total.Counters["race_reports_distinct_elsewhere_in_repo"] += len(raceOther)
+	}
+	for sig := range raceOther {
+		fmt.Printf("  race report outside this property's packages (not judged here): %s\n", sig)
+	}
+
 	known, kerr := LoadKnown()
 	if kerr != nil {
 		broken = append(broken, "known_findings.json: "+kerr.Error())
@@ -504,6 +523,67 @@ func CheckMain(args []string) int {
 		return 2
 	}
 	return 0
+}
+
+var frameRe = regexp.MustCompile(`^\s+(/repo/)(pkg/[^\s:]+\.go)`)
+var funcRe = regexp.MustCompile(`^\s{2}([A-Za-z0-9_./()*\-\[\]]+)\(`)
+
+// scanRaceLogs reads the GORACE log files of a run: number of reports, and the distinct
+// reports (by the set of repository files involved, line numbers stripped) that touch the
+// property's packages, other repository packages, or only the harness.
+func scanRaceLogs(dir string, pkgs []string) (total int, mine, other, harness map[string]string) {
+	mine, other, harness = map[string]string{}, map[string]string{}, map[string]string{}
+	files, _ := filepath.Glob(filepath.Join(dir, "race-*"))
+	for _, f := range files {
+		b, err := os.ReadFile(f)
+		if err != nil {
+			continue
+		}
+		for _, blk := range strings.Split(string(b), "==================") {
+			if !strings.Contains(blk, "WARNING: DATA RACE") {
+				continue
+			}
+			total++
+			set := map[string]bool{}
+			for _, ln := range strings.Split(blk, "\n") {
+				if m := frameRe.FindStringSubmatch(ln); m != nil && !strings.Contains(m[2], "/generated/") {
+					set[m[2]] = true
+				}
+			}
+			var fl []string
+			inPkg := false
+			for x := range set {
+				fl = append(fl, x)
+				for _, p := range pkgs {
+					if strings.HasPrefix(x, p+"/") {
+						inPkg = true
+					}
+				}
+			}
+			sort.Strings(fl)
+			sig := strings.Join(fl, "+")
+			if len(blk) > 6000 {
+				blk = blk[:6000]
+			}
+			switch {
+			case inPkg:
+				mine[sig] = blk
+			case len(fl) > 0:
+				other[sig] = blk
+			default:
+				harness["(no repository frame) "+firstLines(blk, 12)] = blk
+			}
+		}
+	}
+	return
+}
+
+func firstLines(s string, n int) string {
+	l := strings.Split(strings.TrimSpace(s), "\n")
+	if len(l) > n {
+		l = l[:n]
+	}
+	return strings.Join(l, " / ")
 }
 
 func filterCase(vs []Violation, c int) []Violation {
